@@ -254,10 +254,15 @@ def t_trade_metrics(types):
             h.assume(ops.compare('>', b, 0))
         trades, start, finish = metrics_world(h, pnls, list(types), fees, holds, balances)
         h.cover('metrics.trades.pre')
-        out = h.outcome('jesse.services.metrics.trades', trades, balances)
+        # `final` (the session is over / still running - Strategy.metrics reads the numbers during a run) is a finite enumeration
+        final = True if (n > 1 or h.branch(h.bool('final'))) else False      # both values on the one-trade lists (cost)
+        snap = list(balances)
+        out = h.outcome('jesse.services.metrics.trades', trades, balances, final=final)
         h.prove(out.ok, 'metrics.trades.no-exception', {'raised': out.exc})
         if not out.ok:
             return
+        h.prove(len(balances) == len(snap) and all(x is y for x, y in zip(balances, snap)),
+                'metrics.trades.the-daily-balance-argument-is-left-unmodified', {'length_now': len(balances), 'final': final})
         m = out.value
         env = dict(m=m, pnls=pnls, types=list(types), fees=fees, holds=holds, start=start, finish=finish)
         for key, text in K.TRADE_METRICS.items():
